@@ -85,7 +85,7 @@ func upgradeRequest(connID ...string) *http.Request {
 // ---------------------------------------------------------------------------------------
 // fake graphql-ws upstream
 
-type upAction string // "event" | "complete" | "error" | "disconnect" | "errorpayload"
+type upAction string // "event" | "event-changed" | "complete" | "error" | "disconnect" | "errorpayload" | "dataerrors"
 
 type upstream struct {
 	index    int
@@ -107,6 +107,9 @@ type wsEnv struct {
 	scripts   [][]upAction // script of the k-th upstream connection
 	startedC  chan int
 	eventBase int
+	// epoch counts the changes of the services' data ("event-changed": once everything emitted so far has
+	// been processed, every value but the ids changes and the previous event is emitted again)
+	epoch int
 }
 
 func (e *wsEnv) install() {
@@ -137,6 +140,9 @@ func (e *wsEnv) eventPayload(u *upstream, n int) map[string]interface{} {
 		return map[string]interface{}{"data": nil, "errors": []interface{}{map[string]interface{}{"message": "INVALID SUBREQUEST: " + errs[0].Message}}}
 	}
 	cnt := a.Counters{"__event": n}
+	if e.epoch > 0 {
+		cnt["__epoch"] = e.epoch
+	}
 	data, err := gqlref.Execute(s.Schema, e.fed.W.ForService(u.svc, cnt), doc.Operations[0], u.vars, nil)
 	if err != nil {
 		return map[string]interface{}{"data": nil, "errors": []interface{}{map[string]interface{}{"message": "VARIABLE ERROR: " + err.Error()}}}
@@ -176,6 +182,19 @@ func (e *wsEnv) serveUpstream(u *upstream) {
 		switch act {
 		case "event":
 			u.emitted++
+			b, _ := json.Marshal(map[string]interface{}{"type": "data", "id": "1", "payload": e.eventPayload(u, e.eventBase+u.index*10+u.emitted)})
+			if err := writeServerFrame(conn, b); err != nil {
+				return
+			}
+		case "event-changed":
+			vrt.WaitIdle() // the events emitted so far have been delivered (or are stuck for good)
+			e.epoch++
+			for _, c := range e.fed.Fakes.Cnt {
+				c["__epoch"] = e.epoch
+			}
+			if u.emitted == 0 {
+				u.emitted = 1
+			}
 			b, _ := json.Marshal(map[string]interface{}{"type": "data", "id": "1", "payload": e.eventPayload(u, e.eventBase+u.index*10+u.emitted)})
 			if err := writeServerFrame(conn, b); err != nil {
 				return
